@@ -99,6 +99,14 @@ pub fn execute(case: &str) -> String {
             let b = unhex(it.next().unwrap()).unwrap();
             (Code::from_bytes(&b) as i32).to_string()
         }
+        Some("u8") => {
+            // Rust's own UTF-8 encoding of a code point (None for surrogates / out of range)
+            let c: u32 = it.next().unwrap().parse().unwrap();
+            match char::from_u32(c) {
+                Some(ch) => hex(ch.to_string().as_bytes()),
+                None => "none".into(),
+            }
+        }
         Some("codei") => {
             let sgn = it.next().unwrap();
             let mag: i64 = it.next().unwrap().parse().unwrap();
@@ -450,6 +458,21 @@ pub fn generate(tier: &str, rng: &mut Rng) -> Vec<String> {
             out.push(format!("dec {}", entries_tok(&[kv("grpc-status", &[b'1', a])])));
             out.push(format!("dec {}", entries_tok(&[kv("grpc-status", &[a, b'1'])])));
         }
+    }
+    // what "a Unicode string" is: Rust's encoding of code points vs the model's encoder/validator
+    for c in [0u32, 0x7f, 0x80, 0x7ff, 0x800, 0xfff, 0x1000, 0xcfff, 0xd000, 0xd7ff, 0xd800, 0xdbff, 0xdfff, 0xe000, 0xffff, 0x10000, 0x3ffff, 0x40000, 0xfffff, 0x100000, 0x10ffff, 0x110000] {
+        for d in [-1i64, 0, 1] {
+            let x = c as i64 + d;
+            if x >= 0 {
+                out.push(format!("u8 {}", x));
+            }
+        }
+    }
+    let step = if thorough { 17 } else { 997 };
+    let mut c = 0u32;
+    while c < 0x110000 {
+        out.push(format!("u8 {}", c));
+        c += step;
     }
     // Code::from_i32
     for i in -3i64..=20 {
